@@ -42,6 +42,13 @@ def uses_prefix(e, which, i, k, strict):
     return ghost_pred('uses_elts_prefix', e, i, k, strict)
 
 
+def elem_at(which, seq, i):
+    """element i of a child sequence (Call.kwargs holds (name, expr) pairs)"""
+    if which == 'kwargs':
+        return pair_snd_at(seq, i)
+    return seq_at(seq, i)
+
+
 def seq_fold_def(e, which, seq, strict):
     """DEFINITION of uses_prefix(e, which, i, .) as the fold of `uses` over the sequence (assumed as axioms)"""
     n = seq_len(seq)
@@ -49,7 +56,7 @@ def seq_fold_def(e, which, seq, strict):
         which + '_0': forall_keys('NamedId', lambda k: not uses_prefix(e, which, 0, k, strict)),
         which + '_step': forall_ints(lambda i: implies(0 <= i and i < n, forall_keys('NamedId', lambda k:
                                      uses_prefix(e, which, i + 1, k, strict) ==
-                                     (uses_prefix(e, which, i, k, strict) or kuses(seq_at(seq, i), k, strict))))),
+                                     (uses_prefix(e, which, i, k, strict) or kuses(elem_at(which, seq, i), k, strict))))),
     }
 
 
